@@ -450,7 +450,11 @@ fn oracle_walk(seed: u64, thorough: bool) -> Oracle {
     family.extend(numeric::layout_docs());
     let limits = Limits { max_objects: 24, time_limit_ms: 10_000, mem_limit_mb: 768, with_scan: true };
     walk_family(&mut or, &family, &CONFIGS, n_witness_docs, limits, seed, thorough, &mut slowest, &mut per_sig);
-    // encrypted documents with guard values: opening is what matters, two configurations (quick tier)
+    // shared sub-structure behind several independent fan-outs (a·f²·m·l loads from a + 2f + m + 2l objects): a small
+    // one under every configuration, and the 8 KB witness of the open finding `timeout:fanout` (one typed load of its
+    // appearance dictionary takes 22 s without a cache, 18 ms with the cache) under strict/uncached and strict/cached
+    walk_family(&mut or, &[fanout(2, 6, 6, 6), fanout(1, 12, 12, 12)], &CONFIGS, 0, limits, seed, thorough, &mut slowest, &mut per_sig);
+    walk_family(&mut or, &[fanout(1, 60, 60, 30)], &[(false, false), (false, true)], 0, limits, seed, thorough, &mut slowest, &mut per_sig);
     let crypt = numeric::crypt_docs(thorough);
     let crypt_cfg: &[(bool, bool)] = if thorough { &CONFIGS } else { &[(false, false), (true, true)] };
     walk_family(&mut or, &crypt, crypt_cfg, 0, limits, seed, thorough, &mut slowest, &mut per_sig);
@@ -472,6 +476,32 @@ pub fn run(driver: &Driver, seed: u64, thorough: bool, replay: Option<&serde_jso
     if std::env::var("VERIF_DEBUG").is_ok() {
         // (main silences the panic hook; a panic of the harness itself is easier to find with a message)
         std::panic::set_hook(Box::new(|info| { eprintln!("harness panic: {}", info); }));
+    }
+    if let Ok(spec) = std::env::var("VERIF_C14_PROBE") {
+        // measurement aid: `VERIF_C14_PROBE=a,f,m,l` walks the one fan-out document under the four configurations
+        // and prints time, peak and the number of read calls (no verdict)
+        let v: Vec<usize> = spec.split(',').filter_map(|x| x.parse().ok()).collect();
+        if v.len() == 4 {
+            let p = fanout(v[0], v[1], v[2], v[3]);
+            {
+                // the library alone: ONE typed load of the appearance dictionary (object 5), nothing else
+                use pdf::file::FileOptions;
+                use pdf::object::{AppearanceStreamEntry, PlainRef, Ref, Resolve};
+                let r5: Ref<AppearanceStreamEntry> = Ref::new(PlainRef { id: 5, gen: 0 });
+                let t0 = std::time::Instant::now();
+                let f = FileOptions::uncached().load(p.bytes.clone()).expect("fan-out document loads");
+                let res = f.resolver().get(r5);
+                eprintln!("{} uncached: one get::<AppearanceStreamEntry>: ok={} in {} ms", p.desc, res.is_ok(), t0.elapsed().as_millis());
+                let t0 = std::time::Instant::now();
+                let f = FileOptions::cached().load(p.bytes.clone()).expect("fan-out document loads");
+                let res = f.resolver().get(r5);
+                eprintln!("{} cached: one get::<AppearanceStreamEntry>: ok={} in {} ms", p.desc, res.is_ok(), t0.elapsed().as_millis());
+            }
+            for &(t, c) in CONFIGS.iter() {
+                let res = walk_all(&[Doc { bytes: p.bytes.clone(), tolerant: t, cached: c }], Limits { max_objects: 24, time_limit_ms: 60_000, mem_limit_mb: 768, with_scan: true });
+                eprintln!("{} ({} bytes) [{}]: {:?} in {} ms, peak {} KiB, {} read calls", p.desc, p.bytes.len(), cfg_name(t, c), res[0].outcome, res[0].ms, res[0].peak_bytes >> 10, res[0].calls.values().sum::<u64>());
+            }
+        }
     }
     let mut rep = Report::new("C14");
     if let Some(r) = replay {
